@@ -449,7 +449,8 @@ impl Type {
     }
 
     pub fn wraps(&self) -> Vec<String> {
-        let mut ret = vec![self.base()];
+        // the names only, without a reference in front: a parameter behind a reference (`Option<&'a T>`) is used too
+        let mut ret = vec![self.ident.path(&self, false)];
         let Some(wraps) = self.wraps.as_ref() else {
             return ret;
         };
